@@ -1,12 +1,14 @@
 \* C16, documentation run (not part of ./check): the two hypothetical designs one careless edit away from the code
 \* (Suite "show2") against the STRICT property.  TLC reports "Invariant AtMostOnce is violated" for the split latch
 \* (c1.LatchLoad c2.LatchLoad c1.LatchStore .. c2.LatchStore: every handler runs twice); with AtMostOnce removed it
-\* reports LeakFree for Start doing its CAS before SetCtx (start.StartCas x1.Load x1.Cas .. start.SetCtx start.Spawn).
+\* reports LeakFree for Start doing its CAS before SetCtx (start.StartCas x1.Load x1.Cas .. start.SetCtx start.Spawn)
+\* and for the unbuffered result channel of DisposeWithTimeout (tw.Timeout .. hlp.Send), and ConnOnce for
+\* Bridge.Close closing its connections outside the locks (x1.Close x2.Close x1.CloseConn:s x2.CloseConn:s).
 CONSTANTS
   Suite = "show2"
   Emit = FALSE
 INIT Init
 NEXT Next
 VIEW view
-INVARIANTS TypeOK AtMostOnce LeakFree
+INVARIANTS TypeOK AtMostOnce LeakFree ConnOnce
 CHECK_DEADLOCK FALSE
